@@ -121,6 +121,8 @@ pub struct RefOut {
     pub mem_open: bool,
     /// class Any only: the cycle list is nevertheless complete (C20 checks the charge of such cases)
     pub cyc_valid: bool,
+    /// a second PC value the statement equally allows (JSR @ER7: the target is SP before or after the push)
+    pub pc_alt: Option<u32>,
 }
 
 impl RefOut {
@@ -139,6 +141,7 @@ impl RefOut {
             taken: false,
             mem_open: false,
             cyc_valid: false,
+            pc_alt: None,
         }
     }
     /// left open by the properties; memory outside `writes` must still not change
@@ -819,10 +822,12 @@ fn exec_inner<M: MemRead>(row: usize, f: &Fields, len: usize, i: &RefIn, mem: &M
                 Sem::Jsr(Mode::Ind) => {
                     o.cy(Cyc::K, 2, fa);
                     if f.ra == 7 {
-                        wr_n_dontcare(&mut o, fa, 4, true);
-                        return o.any("JSR @ER7");
+                        // the target is SP itself: the value before or the value after the push, either way 24 bits
+                        o.pc_alt = Some(i.er[7] & M24);
+                        i.er[7].wrapping_sub(4) & M24
+                    } else {
+                        i.er[f.ra as usize] & M24
                     }
-                    i.er[f.ra as usize] & M24
                 }
                 Sem::Jsr(Mode::A24) => {
                     o.cy(Cyc::K, 2, fa);
